@@ -411,3 +411,33 @@ def validate_derived_records(pid, name, records_path, timeout=3600):
         states += v["tlc_states"]
         rejected += v["rejected"]
     return {"records": total, "accepted": total - len(rejected), "rejected": rejected, "tlc_states": states}
+
+
+def emit_cases(pid, cs, timeout=3600):
+    """Run TLC on one enumeration and keep the printed cases in a file; -> (path, parsed TLC result)."""
+    d = vf.fresh_dir(os.path.join(vf.RUN, pid, cs.name + "-emit"))
+    module = getattr(cs, "module", "Derived.tla")
+    if module == "Derived.tla":
+        cfg = vf.write_cfg(os.path.join(d, "Derived.cfg"), cs.constants(), action_constraints=[],
+                           invariants=DERIVED_INVARIANTS + ["EmitInv"])
+    else:
+        cfg = vf.write_cfg(os.path.join(d, module.replace(".tla", ".cfg")), cs.constants(),
+                           action_constraints=cs.action_constraints, invariants=cs.invariants)
+    cmd = vf.tlc_cmd(module, cfg, os.path.join(d, "md"), workers=cs.workers, heap="6g")
+    path = os.path.join(d, "cases.ndjson")
+    log = os.path.join(d, "tlc.log")
+    tlc = subprocess.Popen(cmd, cwd=vf.SPEC, stdout=subprocess.PIPE, stderr=subprocess.STDOUT, env=_env())
+    with open(path, "wb") as out, open(log, "wb") as logf:
+        for line in tlc.stdout:
+            (out if line[:2] == b'"{' else logf).write(line)
+    try:
+        tlc.wait(timeout=timeout)
+    except subprocess.TimeoutExpired:
+        tlc.kill()
+        raise vf.Infra("TLC timed out on " + cs.name)
+    shutil.rmtree(os.path.join(d, "md"), ignore_errors=True)
+    with open(log, errors="replace") as f:
+        p = vf.parse_tlc_output(f.read())
+    if not p["ok"]:
+        raise vf.Infra("TLC did not finish on %s: %s (%s)" % (cs.name, p["error"] or p["violation"], log))
+    return path, p
